@@ -417,6 +417,30 @@ func runC16(r *Run) {
 				dep = true // result collected through the iterator callback / inside a helper: presence of the call is what is decided
 			}
 			r.Check(dep, "R7", inst, P.Pos(instrPos(site.Call)), "answers from "+want, "the handler calls "+want+" but the bytes it returns do not derive from that call's result")
+			// … and on every success path: the only way to a success exit around the native read is a tabled edge
+			if site.Call.Parent() == h.Fn {
+				isRead := func(in ssa.Instruction) bool { return in == ssa.Instruction(site.Call) }
+				var bypass []Edge
+				if m.Rel == "precompiles/bank" && h.Method == "supplyOf" {
+					// a contract address without a registered pair has no denomination to ask the bank about
+					for _, b := range h.Fn.Blocks {
+						if ifi, ok := lastIf(b); ok {
+							if ex, ok := stripNot(ifi.Cond).(*ssa.Extract); ok && ex.Index == 1 {
+								if c, ok := ex.Tuple.(*ssa.Call); ok && callInfo(c).Name == "GetTokenPair" {
+									if ifi.Cond == ssa.Value(ex) {
+										bypass = append(bypass, Edge{b, 1})
+									} else {
+										bypass = append(bypass, Edge{b, 0})
+									}
+								}
+							}
+						}
+					}
+				}
+				w := PathQuery{Fn: h.Fn, Block: isRead, Target: isSuccessExit, DelEdge: edgeSet(bypass)}.Search()
+				r.Check(w == nil, "R7", inst+"/on-every-success-path", P.Pos(instrPos(site.Call)), "every success exit is preceded by "+want+" (tabled bypass: no registered pair)",
+					"the handler of "+h.Method+" can answer successfully without asking "+want+" (an extra condition short-circuits to a canned answer): for the inputs that condition selects the precompile's answer is not the native one", P.witness(w)...)
+			}
 		}
 	}
 	r.Floor("R7", "read-only precompile methods with a tabled native read", nQD, 20)
